@@ -110,3 +110,15 @@ func CompareGlobals(in *refmal.Interp, e types.EnvType, candidates []string) str
 	}
 	return ""
 }
+
+// OutcomeOf turns a real result into an outcome the other results can be compared with
+// (used where the reference interpreter leaves the outcome unspecified).
+func OutcomeOf(r Result) refmal.Outcome {
+	if r.Err == nil {
+		return refmal.Outcome{Val: val.From(r.Val)}
+	}
+	if ev, has := ErrorValue(r.Err); has {
+		return refmal.Outcome{Thrown: &refmal.Thrown{V: val.From(ev)}}
+	}
+	return refmal.Outcome{Thrown: &refmal.Thrown{Go: "builtin"}}
+}
